@@ -8,5 +8,9 @@ import "sync/atomic"
 // already advanced to base): the simulator starts every world with it.
 func VerifReset(base uint64) { atomic.StoreUint64(&seq, base) }
 
+// VerifAdvance draws n numbers at once: what a burst of other traffic in the process (another
+// database of the same process, say) does to the shared counter.
+func VerifAdvance(n uint64) { atomic.AddUint64(&seq, n) }
+
 // VerifPeek returns the current counter value.
 func VerifPeek() uint64 { return atomic.LoadUint64(&seq) }
